@@ -86,7 +86,8 @@ func (req *TimeStampReq) SanityCheckToken(psd *pkcs7.ContentInfoSignedData) erro
 	if req.Nonce != nil && (info.Nonce == nil || req.Nonce.Cmp(info.Nonce) != 0) {
 		return errors.New("request nonce mismatch")
 	}
-	if !hmac.Equal(info.MessageImprint.HashedMessage, req.MessageImprint.HashedMessage) {
+	if !hmac.Equal(info.MessageImprint.HashedMessage, req.MessageImprint.HashedMessage) ||
+		!info.MessageImprint.HashAlgorithm.Algorithm.Equal(req.MessageImprint.HashAlgorithm.Algorithm) {
 		return errors.New("message imprint mismatch")
 	}
 	return nil
